@@ -805,6 +805,15 @@ func (e *Env) evalCall(x *ECall) Val {
 		a := arg(0)
 		fc.d.Fun("f64_to_f32", []Sort{SF64}, SF64)
 		return Val{T: App(SF64, "f64_to_f32", a.T), Typ: types.Typ[types.Float32]}
+	case "utf8enc": // string(rune): the UTF-8 encoding of a code point (ASCII: the byte itself)
+		a := arg(0)
+		fc.d.Fun("utf8_enc", []Sort{SInt}, SStr)
+		r := App(SStr, "utf8_enc", a.T)
+		if e.inQuant == 0 {
+			fc.addAxiom(Implies(And(Ge(a.T, IntLit(0)), Lt(a.T, IntLit(128))), Eq(r, SeqUnit(a.T))))
+			fc.addAxiom(And(Ge(SeqLen(r), IntLit(1)), Le(SeqLen(r), IntLit(4))))
+		}
+		return Val{T: r, Typ: types.Typ[types.String]}
 	case "int2bv":
 		a := arg(0)
 		if n, ok := isIntLit(a.T); ok {
